@@ -1088,6 +1088,17 @@ class Analysis:
             tr = ty_range(mf.group(2))
             if ia is not None and tr and tr[0] <= ia[0] and ia[1] <= tr[1]:
                 widen = ia                # a lossless conversion keeps the value
+        is_variant = None
+        mv = re.search(r"(result::Result<T, E>::(is_ok|is_err)|option::Option<T>::(is_some|is_none))$", name)
+        if mv and args and op_place(args[0]) is not None:
+            ak = key_of(op_place(args[0]))
+            src = self._pointee(ak) if ak else None
+            d0 = st.iv.get((src or ak or "") + "#d") if (src or ak) else None
+            if d0 is not None and d0[0] == d0[1]:
+                meth = name.rsplit("::", 1)[1]
+                first = d0 == (0, 0)            # Ok / None are variant 0
+                truth = first if meth in ("is_ok", "is_none") else not first
+                is_variant = (1, 1) if truth else (0, 0)
         keep_d = None
         if re.search(r"result::Result<T, E>::(map_err|map|or_else|and_then)$", name) and args and op_place(args[0]) is not None:
             ak = key_of(op_place(args[0]))
@@ -1144,6 +1155,9 @@ class Analysis:
                 st.sym[it + ".end"] = e_ln
             if s_iv and e_iv:
                 st.iv[it + ".start"] = (s_iv[0], max(e_iv[1], s_iv[1]))
+            return
+        if is_variant is not None:
+            st.iv[key] = is_variant
             return
         if widen is not None:
             st.iv[key] = widen
